@@ -632,3 +632,78 @@ pub fn api_replay(args: &[String]) {
 	}
 	out.summary(json!({"programs": progs.len(), "indicators": NAMES.len(), "runs": runs}));
 }
+
+/// class of a panic message (the site inside the crate that gave up)
+fn panic_class(msg: &str) -> &'static str {
+	if msg.contains("PeriodType overflow") {
+		"window-of-PeriodType::MAX"
+	} else if msg.contains("overflow") {
+		"arithmetic-overflow"
+	} else if msg.contains("out of range") || msg.contains("out of bounds") {
+		"index-out-of-range"
+	} else if msg.contains("NAN") || msg.contains("NaN") {
+		"nan-input"
+	} else if msg.contains("unwrap") {
+		"unwrap"
+	} else if msg.contains("empty window") {
+		"empty-window"
+	} else {
+		"other"
+	}
+}
+
+/// `yv indparams-replay <configs.ndjson> <seed> <steps>` — C10 at indicator level
+pub fn params_replay(args: &[String]) {
+	let rows = read_lines(&args[0]);
+	let seed: u64 = arg(args, 1, "seed");
+	let steps: usize = arg(args, 2, "steps");
+	let mut out = Sink::new();
+	let mut inits = 0u64;
+	let mut accepted = 0u64;
+	for (ri, r) in rows.iter().enumerate() {
+		let name = r["ind"].as_str().unwrap();
+		let mut c = default_cfg(name);
+		let mut applied = Vec::new();
+		for st in r["sets"].as_array().unwrap() {
+			let (f, t) = (st["field"].as_str().unwrap(), st["text"].as_str().unwrap());
+			match catch(|| c.set(f, t.to_string())) {
+				Ok(Ok(())) => applied.push(format!("{f}={t}")),
+				Ok(Err(_)) => {}
+				Err(e) => {
+					out.mismatch(&format!("{name}:set:panic"), json!({"field": f, "text": t, "msg": e}));
+				}
+			}
+		}
+		let class = applied.join(",");
+		let valid = match catch(|| c.validate()) {
+			Ok(v) => v,
+			Err(e) => {
+				out.mismatch(&format!("{name}:validate:panic"), json!({"cfg": c.to_json(), "deviation": class, "msg": e}));
+				continue;
+			}
+		};
+		let mut g = Gen::new(seed * 7_919 + ri as u64, true);
+		g.no_zero_volume = c.to_json().as_object().unwrap().values().any(|v| v == "volume" || v == "volumed_price");
+		let first = g.candle();
+		inits += 1;
+		out.checked += 1;
+		match catch(|| c.init(&first)) {
+			Err(e) => out.mismatch(&format!("{name}:init:panic[{}]", panic_class(&e)), json!({"cfg": c.to_json(), "deviation": class, "valid": valid, "msg": e})),
+			Ok(Err(_)) => {}
+			Ok(Ok(mut inst)) => {
+				if !valid {
+					out.mismatch(&format!("{name}:init:ok-though-invalid"), json!({"cfg": c.to_json(), "deviation": class}));
+				}
+				accepted += 1;
+				for i in 0..steps {
+					let x = if i == 0 { first } else { g.candle() };
+					if let Err(e) = catch(|| inst.next(&x)) {
+						out.mismatch(&format!("{name}:next:panic[{}]", panic_class(&e)), json!({"cfg": c.to_json(), "deviation": class, "step": i, "msg": e}));
+						break;
+					}
+				}
+			}
+		}
+	}
+	out.summary(json!({"configs": rows.len(), "inits": inits, "accepted": accepted}));
+}
